@@ -6,9 +6,13 @@ Byte strings are compared with core Lean's lexicographic `<` on `List UInt8`.
 Core Lean only.
 -/
 import Model.Base.Bytes
+import Model.Fmt.Rune
 
 namespace Spec.Storage
 open Bytes
+
+/-- Unicode classification of code points ≥ 0x80 (a parameter: taken from the Go toolchain) -/
+abbrev UC := _root_.Fmt.UC
 
 abbrev KV := List (Bytes × Bytes)
 
@@ -44,19 +48,33 @@ def textLines (data : Bytes) : List Bytes :=
   let raw := if raw.getLast? == some [] then raw.dropLast else raw
   raw.map fun l => if l.getLast? == some 13 then l.dropLast else l
 
-def lower (c : UInt8) : Bool := 97 ≤ c && c ≤ 122
-def upper (c : UInt8) : Bool := 65 ≤ c && c ≤ 90
-def space (c : UInt8) : Bool := c == 32 || (9 ≤ c && c ≤ 13)
 def blank (c : UInt8) : Bool := c == 32 || c == 9
 
-/-- `key: value` configuration line: key starts with a lower-case letter and has no blank, upper-case
-letter or colon; the value is separated by at least one blank, or is empty (which unsets the key). -/
-def configLine (line : Bytes) : Option (Bytes × Bytes) :=
-  let key := line.takeWhile (· != 58)
-  let rest := line.drop key.length
-  match key, rest with
-  | k0 :: _, _ :: val =>
-    if lower k0 && key.all (fun c => !space c && !upper c) then
+/-- the text as runes: code point and the bytes that encode it (a malformed byte is U+FFFD of width
+one, as in Go's `range`) -/
+def runes (s : Bytes) : List (Nat × Bytes) :=
+  let rec go (fuel : Nat) (s : Bytes) : List (Nat × Bytes) :=
+    match fuel, s with
+    | 0, _ => []
+    | _, [] => []
+    | fuel + 1, s =>
+      let (r, n) := _root_.Fmt.decodeRune s
+      let n := if n == 0 then 1 else n
+      (r, s.take n) :: go fuel (s.drop n)
+  go s.length s
+
+def bytesOf (rs : List (Nat × Bytes)) : Bytes := rs.flatMap (·.2)
+
+/-- `key: value` configuration line: the key is what precedes the first colon, starts with a
+lower-case letter and holds no white space and no upper-case letter; the value is separated by at
+least one blank, or is empty (which unsets the key). -/
+def configLine (uc : UC) (line : Bytes) : Option (Bytes × Bytes) :=
+  let rs := runes line
+  let keyR := rs.takeWhile (·.1 != 58)
+  let key := bytesOf keyR
+  match keyR, line.drop key.length with
+  | (r0, _) :: _, _ :: val =>
+    if uc.lower r0 && keyR.all (fun r => !uc.space r.1 && !uc.upper r.1) then
       if val.isEmpty then some (key, [])
       else match val with
         | b :: _ => if blank b then some (key, val.dropWhile blank) else none
@@ -64,9 +82,9 @@ def configLine (line : Bytes) : Option (Bytes × Bytes) :=
     else none
   | _, _ => none
 
-/-- `Benchmark<name> <rest>`: the full name without the prefix -/
-def benchLine (line : Bytes) : Option Bytes :=
-  let word := line.takeWhile (fun c => !space c)
+/-- `Benchmark<name><white space>…`: the full name without the prefix -/
+def benchLine (uc : UC) (line : Bytes) : Option Bytes :=
+  let word := bytesOf ((runes line).takeWhile (fun r => !uc.space r.1))
   if word.length < line.length && hasPrefix word (ofString "Benchmark") then some (word.drop 9) else none
 
 /-! ### labels derived from the benchmark name -/
@@ -97,14 +115,14 @@ def nameLabels (full : Bytes) : KV :=
     else put l (ofString s!"sub{i + 1}") sub) l
 
 /-- the benchmark lines of one file with the labels in force; `server` labels cannot be overridden -/
-def fileLines (server : KV) (data : Bytes) : List Line :=
+def fileLines (uc : UC) (server : KV) (data : Bytes) : List Line :=
   let step (st : KV × List Line) (line : Bytes) : KV × List Line :=
-    match configLine line with
+    match configLine uc line with
     | some (k, v) =>
       if (lookup server k).isSome then st
       else if v.isEmpty then (del st.1 k, st.2) else (put st.1 k v, st.2)
     | none =>
-      match benchLine line with
+      match benchLine uc line with
       | some full => (st.1, st.2 ++ [{ labels := st.1 ++ nameLabels full, content := line }])
       | none => st
   ((textLines data).foldl step (server, [])).2
@@ -121,9 +139,10 @@ structure Term where
   deriving Repr
 
 /-- a word `key:value`, `key<value`, `key>value`; the key ends at the first of `: < >` and must not
-contain a blank or an upper-case letter -/
-def termOf (w : Bytes) : Option Term :=
-  let key := w.takeWhile (fun c => !(c == 58 || c == 60 || c == 62 || space c || upper c))
+contain white space or an upper-case letter -/
+def termOf (uc : UC) (w : Bytes) : Option Term :=
+  let key := bytesOf ((runes w).takeWhile
+    (fun r => !(r.1 == 58 || r.1 == 60 || r.1 == 62 || uc.space r.1 || uc.upper r.1)))
   match w.drop key.length with
   | 58 :: v => some ⟨key, .eq, v⟩
   | 60 :: v => some ⟨key, .lt, v⟩
